@@ -202,6 +202,24 @@ func Minimise(sc *props.Scenario, fails func(*props.Scenario) bool, maxAttempts 
 				}
 			}
 		}
+		for i := 0; i < len(cur.Plans) && len(cur.Plans) > 1; i++ {
+			c := cur.Clone()
+			c.Plans = append(append([][]sim.Fault{}, c.Plans[:i]...), c.Plans[i+1:]...)
+			if try(c) {
+				cur, changed = c, true
+				i--
+			}
+		}
+		for pi := range cur.Plans {
+			for i := 0; i < len(cur.Plans[pi]); i++ {
+				c := cur.Clone()
+				c.Plans[pi] = append(append([]sim.Fault{}, c.Plans[pi][:i]...), c.Plans[pi][i+1:]...)
+				if try(c) {
+					cur, changed = c, true
+					i--
+				}
+			}
+		}
 		// pairs, values, spellings
 		for i := 0; i < len(cur.Pairs) && len(cur.Pairs) > 1; i++ {
 			c := cur.Clone()
